@@ -21,7 +21,16 @@ def build_and_score(I, case):
     y = np.array(case["y"])
     Xv = np.array(case["Xv"], dtype=float)
     yv = np.array(case["yv"])
-    model = KNeighborsClassifier(1) if case["model"] == "knn" else LogisticRegression(max_iter=50)
+    if case["model"] == "knn":
+        model = KNeighborsClassifier(1)
+    elif case["model"] == "rtree":
+        from sklearn.tree import DecisionTreeClassifier
+        model = DecisionTreeClassifier(splitter="random", max_features=1, max_depth=2)      # draws from numpy's GLOBAL generator (random_state=None)
+    elif case["model"] == "rforest":
+        from sklearn.ensemble import RandomForestClassifier
+        model = RandomForestClassifier(n_estimators=3, max_depth=2)
+    else:
+        model = LogisticRegression(max_iter=50)
     U = I["utility"]
     util = U.SklearnModelAccuracy(model)
     if case.get("joint"):
